@@ -721,4 +721,15 @@ theorem SameTable.elems_eq {tv : TView ν α} {mv : MView α} {a b : ν} (h : Sa
   intro j _
   exact h.get i j
 
+/-- a valid 2-dimensional tensor and the matrix with the same flat data show the same table -/
+theorem sameTable_of_same_data {t : Tensor ν α} (ht : Tensor.Valid t) {a b : ν} {R C : Nat}
+    (hs : t.shape = [(a, R), (b, C)]) :
+    SameTable (TView.ofTensor t) (MView.ofMatrix ⟨t.data, R, C⟩) a b := by
+  refine ⟨hs, ?_⟩
+  intro i j
+  show t.get [i, j] = Matrix.tryGet ⟨t.data, R, C⟩ i j
+  rw [ht.get_eq [i, j] (by simp [hs]), Matrix.tryGet_eq]
+  simp only [hs, List.map_cons, List.map_nil, inBounds, ravel, Bool.and_true, Bool.and_eq_true,
+    decide_eq_true_eq, prod_cons, prod_nil, Nat.mul_one, Nat.add_zero]
+
 end EasyMl.Arith
